@@ -9,6 +9,8 @@ package commitlog
 //	T(o)  truncate to offset o, for every o from the reader's position to the log end (a tail truncation: it removes
 //	      nothing the reader has been given and nothing below what it will ask for next)
 //	R     the reader reads one message (a read that finds nothing returns after a short time-out)
+//	H(h)  committed readers only: the high watermark advances to h (by one, never beyond the log end); truncations stay
+//	      above the watermark; a committed reader is given nothing above it
 //	W     only when the reader is at the end of the log: the reader starts a read, which has to wait; one message is
 //	      appended while it waits; the read must return exactly that message
 //
@@ -32,8 +34,8 @@ type lbvcROp struct {
 }
 
 func (o lbvcROp) String() string {
-	if o.kind == 'T' {
-		return fmt.Sprintf("T(%d)", o.arg)
+	if o.kind == 'T' || o.kind == 'H' {
+		return fmt.Sprintf("%c(%d)", o.kind, o.arg)
 	}
 	return string(o.kind)
 }
@@ -61,18 +63,22 @@ func TestLbvcBoundedReaders(t *testing.T) {
 		mu.Unlock()
 	}
 	type cfg struct {
-		segBytes int64
-		initial  int
-		start    int64
+		segBytes  int64
+		initial   int
+		start     int64
+		committed bool  // a committed reader: it is given nothing above the high watermark; H advances the watermark
+		hw0       int64 // committed readers: the high watermark at the start
 	}
 	var cfgs []cfg
-	for _, sb := range []int64{160, 1 << 20} { // 3 messages per segment / one segment
+	for _, sb := range []int64{100, 1 << 20} { // 3 messages per segment / one segment
 		for _, init := range []int{3, 5} {
-			for _, start := range []int64{0, 2, int64(init)} {
-				cfgs = append(cfgs, cfg{sb, init, start})
+			for _, start := range []int64{0, 2} {
+				cfgs = append(cfgs, cfg{sb, init, start, false, -1})
 			}
 		}
 	}
+	// committed readers: the watermark in the reader's own segment, and in the next one
+	cfgs = append(cfgs, cfg{100, 5, 2, true, 1}, cfg{100, 5, 2, true, 3}, cfg{100, 5, 0, true, 3})
 	// run one sequence from scratch on the real log
 	run := func(c cfg, seq []lbvcROp) {
 		dir, err := os.MkdirTemp(tmpBase, "lbvc-rd-")
@@ -98,7 +104,12 @@ func TestLbvcBoundedReaders(t *testing.T) {
 		for i := 0; i < c.initial; i++ {
 			app()
 		}
-		r, err := l.NewReader(c.start, true)
+		hw := int64(-1)
+		if c.committed {
+			hw = c.hw0
+			l.SetHighWatermark(hw)
+		}
+		r, err := l.NewReader(c.start, !c.committed)
 		if err != nil {
 			return
 		}
@@ -169,13 +180,17 @@ func TestLbvcBoundedReaders(t *testing.T) {
 				ctx, cancel := context.WithTimeout(context.Background(), 25*time.Millisecond)
 				m, off, _, _, err := r.ReadMessage(ctx, hb)
 				cancel()
-				have := pos < int64(len(model))
+				have := pos < int64(len(model)) && (!c.committed || pos <= hw)
+				if err == nil && c.committed && off > hw {
+					setBad(fmt.Sprintf("%s: the committed reader is handed offset %d (%q) although the high watermark is %d", desc(i), off, m.Value(), hw))
+					return
+				}
 				switch {
 				case err != nil && have:
 					setBad(fmt.Sprintf("%s: the log holds offset %d (%q) but the reader returns nothing (%v)", desc(i), pos, model[pos], err))
 					return
 				case err == nil && !have:
-					setBad(fmt.Sprintf("%s: the reader returns offset %d (%q) but the log ends at %d", desc(i), off, m.Value(), len(model)-1))
+					setBad(fmt.Sprintf("%s: the reader returns offset %d (%q) but the log ends at %d (high watermark %d)", desc(i), off, m.Value(), len(model)-1, hw))
 					return
 				case err == nil && (off != pos || string(m.Value()) != model[pos]):
 					setBad(fmt.Sprintf("%s: the reader returns offset %d (%q), the next message for it is offset %d (%q)", desc(i), off, m.Value(), pos, model[pos]))
@@ -186,10 +201,13 @@ func TestLbvcBoundedReaders(t *testing.T) {
 				} else {
 					// a reader whose read timed out is abandoned in the real system (the subscription's context ended):
 					// open a fresh one at the same position, as a resubscribing client does
-					if r, err = l.NewReader(pos, true); err != nil {
+					if r, err = l.NewReader(pos, !c.committed); err != nil {
 						return
 					}
 				}
+			case 'H':
+				hw = op.arg
+				l.SetHighWatermark(hw)
 			}
 		}
 		mu.Lock()
@@ -221,31 +239,45 @@ func TestLbvcBoundedReaders(t *testing.T) {
 			}
 		}()
 	}
-	var gen func(c cfg, seq []lbvcROp, n, pos int64)
-	gen = func(c cfg, seq []lbvcROp, n, pos int64) {
+	var gen func(c cfg, seq []lbvcROp, n, pos, hw int64)
+	gen = func(c cfg, seq []lbvcROp, n, pos, hw int64) {
 		if len(seq) == depth {
 			jobs <- job{c, append([]lbvcROp{}, seq...)}
 			return
 		}
 		// A
-		gen(c, append(seq, lbvcROp{'A', 0}), n+1, pos)
+		gen(c, append(seq, lbvcROp{'A', 0}), n+1, pos, hw)
 		// R
 		np := pos
-		if pos < n {
+		if pos < n && (!c.committed || pos <= hw) {
 			np = pos + 1
 		}
-		gen(c, append(seq, lbvcROp{'R', 0}), n, np)
+		gen(c, append(seq, lbvcROp{'R', 0}), n, np, hw)
+		if c.committed {
+			// H: the watermark advances by one (never beyond the log end); truncations stay above it
+			if hw+1 < n {
+				gen(c, append(seq, lbvcROp{'H', hw + 1}), n, pos, hw+1)
+			}
+			lo := pos
+			if hw+1 > lo {
+				lo = hw + 1
+			}
+			for o := lo; o < n; o++ {
+				gen(c, append(seq, lbvcROp{'T', o}), o, pos, hw)
+			}
+			return
+		}
 		// W: only at the end of the log
 		if pos == n {
-			gen(c, append(seq, lbvcROp{'W', 0}), n+1, pos+1)
+			gen(c, append(seq, lbvcROp{'W', 0}), n+1, pos+1, hw)
 		}
 		// T(o) for pos <= o < n (o == n changes nothing)
 		for o := pos; o < n; o++ {
-			gen(c, append(seq, lbvcROp{'T', o}), o, pos)
+			gen(c, append(seq, lbvcROp{'T', o}), o, pos, hw)
 		}
 	}
 	for _, c := range cfgs {
-		gen(c, nil, int64(c.initial), c.start)
+		gen(c, nil, int64(c.initial), c.start, c.hw0)
 	}
 	close(jobs)
 	wg.Wait()
